@@ -4,7 +4,9 @@ package rules
 import (
 	"fmt"
 	"go/constant"
+	"go/token"
 	"go/types"
+	"path/filepath"
 	"sort"
 	"strings"
 
@@ -527,4 +529,208 @@ func (x *Ctx) closureEnv(p *paths.Path, t *paths.Term) (*ssa.Function, map[strin
 		out[k] = bt.String()
 	}
 	return f, out
+}
+
+// ---------------------------------------------------------------------------------------------
+// pool discipline (typestate: an object handed back to a sync.Pool must not stay reachable from what the
+// function returns - the next Get hands it to somebody else while the first user still works with it)
+
+type poolFinding struct {
+	Fn   *ssa.Function
+	Pos  token.Pos
+	What string
+}
+
+// aliasChain lists v and the values it was directly derived from (interface boxing, assertions, tuple
+// extraction, loads of local cells): enough to connect `x := pool.Get().(*T)`, a cell holding x and `Put(x)`.
+func aliasChain(v ssa.Value) []ssa.Value {
+	seen := map[ssa.Value]bool{}
+	var out []ssa.Value
+	var walk func(v ssa.Value, depth int)
+	walk = func(v ssa.Value, depth int) {
+		if v == nil || seen[v] || depth > 12 {
+			return
+		}
+		seen[v] = true
+		out = append(out, v)
+		switch y := v.(type) {
+		case *ssa.MakeInterface:
+			walk(y.X, depth+1)
+		case *ssa.ChangeType:
+			walk(y.X, depth+1)
+		case *ssa.ChangeInterface:
+			walk(y.X, depth+1)
+		case *ssa.TypeAssert:
+			walk(y.X, depth+1)
+		case *ssa.Extract:
+			walk(y.Tuple, depth+1)
+		case *ssa.UnOp:
+			if a, ok := y.X.(*ssa.Alloc); ok && y.Op == token.MUL && !seen[a] {
+				seen[a] = true
+				out = append(out, a)
+				// the values stored into the cell
+				for _, r := range *a.Referrers() {
+					if st, ok := r.(*ssa.Store); ok && st.Addr == ssa.Value(a) {
+						walk(st.Val, depth+1)
+					}
+				}
+			}
+		}
+	}
+	walk(v, 0)
+	return out
+}
+
+func sharesAlias(a, b []ssa.Value) bool {
+	for _, x := range a {
+		if _, isConst := x.(*ssa.Const); isConst {
+			continue
+		}
+		for _, y := range b {
+			if x == y {
+				return true
+			}
+		}
+	}
+	return false
+}
+
+// poolEscapes reports, in the given functions, objects that are put back into a sync.Pool (directly or by a
+// deferred call) although the function returns them, or returns / stores a function literal that captured them.
+func poolEscapes(fs []*ssa.Function) []poolFinding {
+	var out []poolFinding
+	for _, f := range fs {
+		var puts [][]ssa.Value
+		var putPos []token.Pos
+		for _, b := range f.Blocks {
+			for _, in := range b.Instrs {
+				ci, ok := in.(ssa.CallInstruction)
+				if !ok {
+					continue
+				}
+				g := ci.Common().StaticCallee()
+				if g == nil || g.String() != "(*sync.Pool).Put" || len(ci.Common().Args) != 2 {
+					continue
+				}
+				puts = append(puts, aliasChain(ci.Common().Args[1]))
+				putPos = append(putPos, in.Pos())
+			}
+		}
+		if len(puts) == 0 {
+			continue
+		}
+		var escapes func(v ssa.Value) bool
+		escapes = func(v ssa.Value) bool { // does the value leave the function?
+			var refs []ssa.Instruction
+			if r := v.Referrers(); r != nil {
+				refs = *r
+			}
+			for _, r := range refs {
+				switch y := r.(type) {
+				case *ssa.Return:
+					return true
+				case *ssa.Store:
+					if y.Val == v {
+						a, local := y.Addr.(*ssa.Alloc)
+						if !local {
+							return true
+						}
+						// result spilled into a local cell (functions with defers return through one)
+						for _, ar := range *a.Referrers() {
+							if ld, isLd := ar.(*ssa.UnOp); isLd {
+								for _, lr := range *ld.Referrers() {
+									if _, isRet := lr.(*ssa.Return); isRet {
+										return true
+									}
+								}
+							}
+						}
+					}
+				case *ssa.MakeInterface, *ssa.ChangeType:
+					if escapes(y.(ssa.Value)) {
+						return true
+					}
+				}
+			}
+			return false
+		}
+		for i, chain := range puts {
+			for _, b := range f.Blocks {
+				for _, in := range b.Instrs {
+					switch y := in.(type) {
+					case *ssa.MakeClosure:
+						captured := false
+						for _, bnd := range y.Bindings {
+							if sharesAlias(aliasChain(bnd), chain) {
+								captured = true
+							}
+						}
+						if captured && escapes(y) {
+							out = append(out, poolFinding{f, putPos[i], "an object is given back to a sync.Pool while a function literal that captured it is returned or stored: the next Get hands the object to another user while the literal still works with it"})
+						}
+					case *ssa.Return:
+						for _, r := range y.Results {
+							rc := aliasChain(r)
+							if sharesAlias(rc, chain) {
+								out = append(out, poolFinding{f, putPos[i], "an object is given back to a sync.Pool and also returned to the caller"})
+								continue
+							}
+							// a slice / pointer / map obtained from a method of the pooled object (buf.Bytes()) is a view into it
+							for _, v := range rc {
+								c, isCall := v.(*ssa.Call)
+								if !isCall || len(c.Call.Args) == 0 || c.Call.IsInvoke() {
+									continue
+								}
+								refLike := false
+								switch r.Type().Underlying().(type) {
+								case *types.Slice, *types.Pointer, *types.Map:
+									refLike = true
+								}
+								if g := c.Call.StaticCallee(); refLike && g != nil && g.Signature.Recv() != nil && sharesAlias(aliasChain(c.Call.Args[0]), chain) {
+									out = append(out, poolFinding{f, putPos[i], "a " + r.Type().String() + " obtained from " + g.String() + " of an object that is given back to a sync.Pool is returned: it is a view into memory the next user of the object overwrites"})
+								}
+							}
+						}
+					}
+				}
+			}
+		}
+	}
+	return out
+}
+
+var canaryProg *load.Program
+
+// poolDiscipline records the pool-release obligations for the library packages given (relative paths), plus
+// the positive example that keeps the rule from passing vacuously.
+func (x *Ctx) poolDiscipline(rule string, pkgs ...string) {
+	in := map[string]bool{}
+	for _, p := range pkgs {
+		in[load.Module+"/"+p] = true
+	}
+	var fs []*ssa.Function
+	for _, f := range x.P.ModuleFuncs() {
+		if in[x.P.PkgPathOf(f)] && len(f.Blocks) > 0 {
+			fs = append(fs, f)
+		}
+	}
+	bad := ""
+	for _, fd := range poolEscapes(fs) {
+		bad += x.P.Pos(fd.Pos) + " in " + load.ShortName(fd.Fn) + ": " + fd.What + "\n"
+	}
+	x.C.Obl(rule, "pool-release:"+strings.Join(pkgs, ","), "-", fmt.Sprintf("in %d functions of %s no object is put back into a sync.Pool while it is still reachable from what the function returns", len(fs), strings.Join(pkgs, ", ")), bad == "" && len(fs) > 0, dedupLines(bad))
+	if canaryProg == nil {
+		cp, err := load.Load(load.Options{Dir: filepath.Join(x.VerifDir, "lint", "testdata", "canary"), Module: "canary"})
+		if err != nil {
+			x.C.Unresolved(rule, "pool-canary-load", "-", err.Error())
+			return
+		}
+		canaryProg = cp
+	}
+	got := map[string]bool{}
+	for _, fd := range poolEscapes(canaryProg.ModuleFuncs()) {
+		n := load.ShortName(fd.Fn)
+		got[n[strings.LastIndex(n, ".")+1:]] = true
+	}
+	x.C.Obl(rule, "pool-release:canary", "lint/testdata/canary/pool/pool.go", "the three seeded releases-while-referenced (captured by a returned iterator, returned itself, view of its bytes returned) are flagged; release after the last use and returning a copy are not", len(got) == 3 && got["LazyLines"] && got["Leak"] && got["View"], fmt.Sprint(got))
 }
